@@ -49,6 +49,69 @@ def oracle(seq, answers):
     return bad
 
 
+AGE_MS = 10000          # the driver puts the lock's start ts this far in the past; keep in step with ocaml/si/driver.ml
+TTLS = (0, 1, 3600000)  # TTL-0 protocol / expired / alive
+
+
+def lock_sequences(rng, tier):
+    """mode L: calls (txn, pess, ttl, script) on one resolver; script items are answers or "nf" (TxnNotFound). The store's
+    contract is respected: TxnNotFound is never the answer to a request with rollback_if_not_exist (so an expired lock sees
+    at most one), and every script ends with a status answer that is reached."""
+    def max_nf(pess, ttl):
+        return 1 if (ttl <= AGE_MS or pess) else 2
+    seqs = []
+    for pess in (0, 1):
+        for ttl in TTLS:
+            for k in range(max_nf(pess, ttl) + 1):
+                for x in ANSWERS:
+                    seqs.append([(1, pess, ttl, ["nf"] * k + [x]), (1, pess, ttl, [(0, 7, 0)])])
+    for _ in range(150 if tier == "quick" else 3000):
+        seq = []
+        for _ in range(rng.randrange(2, 5)):
+            pess, ttl = rng.randrange(2), rng.choice(TTLS)
+            seq.append((rng.randrange(1, 4), pess, ttl, ["nf"] * rng.randrange(max_nf(pess, ttl) + 1) + [rng.choice(ANSWERS)]))
+        seqs.append(seq)
+    return seqs
+
+
+def enc_lock_seq(seq):
+    return ",".join("%d;%d;%d;%s" % (t, p, ttl, "/".join("nf" if a == "nf" else "%d:%d:%d" % a for a in sc) or "-") for t, p, ttl, sc in seq)
+
+
+def lock_oracle(seq, line):
+    """oracle on the implementation's answers alone"""
+    bad = []
+    calls = line.split(",")
+    if len(calls) != len(seq):
+        return [f"driver answered {line!r}"]
+    finals = {}
+    for i, ((txn, pess, ttl, sc), ans) in enumerate(zip(seq, calls)):
+        res, _, reqs = ans.partition("|")
+        reqs = [tuple(int(x) for x in r.split(".")) for r in reqs.split("/") if r]
+        for j, (rine, curmax, rp) in enumerate(reqs):
+            if rine and not (ttl <= AGE_MS and j > 0 and sc[j - 1] == "nf"):
+                bad.append(f"call {i} request {j}: rollback_if_not_exist for a lock that has not expired / without a preceding TxnNotFound")
+            if bool(curmax) != (ttl == 0):
+                bad.append(f"call {i} request {j}: current_ts max = {curmax} for lock ttl {ttl}")
+            if rp != pess:
+                bad.append(f"call {i} request {j}: resolving_pessimistic_lock = {rp} for a lock with pessimistic = {pess}")
+        if res in ("err", "hang"):
+            bad.append(f"call {i}: getTxnStatusFromLock answered {res} although the script ends with a status answer")
+        else:
+            st = tuple(int(x) for x in res.split("."))
+            if not reqs:
+                if st not in finals.get(txn, set()):
+                    bad.append(f"call {i}: txn {txn} answered {st} without a request, no earlier final status justifies it")
+            elif final(*st):
+                consumed = sc[len(reqs) - 1] if len(reqs) <= len(sc) else None
+                view = None if consumed in (None, "nf") else ((consumed[0], 0, consumed[2]) if consumed[0] != 0 else consumed)
+                if st != view:
+                    bad.append(f"call {i}: final status {st} is not the store's last answer {consumed}")
+            if final(*st):
+                finals.setdefault(txn, set()).add(st)
+    return bad
+
+
 def differential(v, cov, mexe, rng, tier):
     okg, gexe = vlib.go_build("sistatus", roots=("ov_si",))
     if not okg:
@@ -82,4 +145,33 @@ def differential(v, cov, mexe, rng, tier):
             if ndiff <= 3:
                 v.violation({"kind": "model-differential", "correspondence": "LockResolver.getTxnStatus vs extracted SI.Model.get_txn_status", "input": s,
                              "implementation": ga, "model": m.get(key)}, has_input=False)
+    # mode L: getTxnStatusFromLock (TxnNotFound handling, rollback_if_not_exist escalation, TTL-0 protocol, pessimistic shortcut)
+    lseqs = lock_sequences(rng, tier)
+    lenc = [enc_lock_seq(q) for q in lseqs]
+    gl, err = run(gexe, [f"L l{i} {e}" for i, e in enumerate(lenc)])
+    ml, err2 = run(mexe, [f"L l{i} {e}" for i, e in enumerate(lenc)])
+    if gl is None or ml is None:
+        v.violation({"kind": "harness", "correspondence": "sistatus / modelrun run (mode L)", "error": err or err2}, has_input=False)
+        return
+    gd = {l.split(" ")[1]: l.split(" ")[2] for l in gl if l.startswith("L ") and len(l.split(" ")) == 3}
+    md = {l.split(" ")[1]: l.split(" ")[2] for l in ml if l.startswith("L ") and len(l.split(" ")) == 3}
+    lbad = ldiff = 0
+    for i, q in enumerate(lseqs):
+        key = f"l{i}"
+        ga = gd.get(key, "")
+        try:
+            bad = lock_oracle(q, ga)
+        except (ValueError, IndexError):
+            bad = [f"driver answered {ga!r}"]
+        if bad:
+            lbad += 1
+            if lbad <= 3:
+                v.violation({"kind": "property-oracle", "theorem": "C01_status_from_lock", "input": {"calls (txn, pessimistic, lock ttl ms, script of answers (lock_ttl, commit_version, action) | nf)": q, "lock age ms": AGE_MS},
+                             "implementation": ga, "model": md.get(key), "violated": bad[:4]})
+        elif ga != md.get(key):
+            ldiff += 1
+            if ldiff <= 3:
+                v.violation({"kind": "model-differential", "correspondence": "LockResolver.getTxnStatusFromLock vs extracted SI.Model.status_from_lock", "input": q,
+                             "implementation": ga, "model": md.get(key)}, has_input=False)
+    cov.update(status_from_lock_sequences=len(lseqs), status_from_lock_calls=sum(len(q) for q in lseqs), status_from_lock_oracle_failures=lbad, status_from_lock_model_mismatches=ldiff)
     cov.update(status_cache_sequences=len(seqs), status_cache_calls=sum(len(s) for s in seqs), status_cache_oracle_failures=nbad, status_cache_model_mismatches=ndiff)
